@@ -244,11 +244,16 @@ func ruleTIndex(p *Program, r *Reporter) {
 				}
 				return ""
 			}
-			if msg := chk("Start", w.start, ints[0], 0, math.MaxInt64); msg != "" {
+			maxInt, minInt := int64(math.MaxInt64), int64(math.MinInt64)
+			switch p.GoArch {
+			case "386", "arm", "mips", "mipsle", "wasm32":
+				maxInt, minInt = math.MaxInt32, math.MinInt32
+			}
+			if msg := chk("Start", w.start, ints[0], 0, maxInt); msg != "" {
 				r.Bad(pos, key, msg)
 				continue
 			}
-			if msg := chk("Stop", w.stop, ints[1], math.MaxInt64, math.MinInt64); msg != "" {
+			if msg := chk("Stop", w.stop, ints[1], maxInt, minInt); msg != "" {
 				r.Bad(pos, key, msg)
 				continue
 			}
